@@ -1,11 +1,10 @@
 """C19 -- see DESIGN.md section 5.  Deductive targets are added below the bounded import."""
 PROP = "C19"
+from . import progress_contracts as pc
 LEVEL = "other"
 EXPLANATION = "under construction: bounded run-time contract checks on the real code; deductive obligations are being added"
 UNDER_CONSTRUCTION = True
 NOT_APPLICABLE = "check under construction in this round (see DESIGN.md section 5 for the plan); not claimed yet"
-TARGETS = []
-LEMMAS = []
 try:
     from .C19_bounded import bounded, BOUNDED_RULE  # noqa: F401
     try:
@@ -14,3 +13,5 @@ try:
         pass
 except ImportError:
     pass
+TARGETS = [pc.PI + m for m in ("advance", "_overwrite")]
+LEMMAS = []
